@@ -7,7 +7,7 @@ ID=$1; SFX=${2:-}; WT=/tmp/wt_$ID$SFX; OUT=/verif/seeded/$ID$SFX
 export CARGO_NET_OFFLINE=true CARGO_TARGET_DIR=$WT/target
 cd $WT || exit 2
 LOG=$WT/MUTATION/confirm.log; : > $LOG
-demo_rs=$(cd $WT && git status --porcelain | grep '^??' | awk '{print $2}' | grep -E 'tests/.*\.rs$' | head -1)
+demo_rs=$(cd $WT && git status --porcelain -uall | grep '^??' | awk '{print $2}' | grep -E 'tests/.*\.rs$' | head -1)
 echo "demo file: $demo_rs" | tee -a $LOG
 # (1) suite with change, demo moved away
 mkdir -p /tmp/demo_hold_$ID$SFX; [ -n "$demo_rs" ] && mv $WT/$demo_rs /tmp/demo_hold_$ID$SFX/
